@@ -28,6 +28,18 @@ class VFile(object):
         self.open_for_write = 0     # number of unclosed writing handles
 
 
+def _site():
+    """nautilus function (in sampler.py) issuing the current operation"""
+    import sys
+    f = sys._getframe(2)
+    while f is not None:
+        fn = f.f_code.co_filename
+        if fn.endswith('/sampler.py'):
+            return f.f_code.co_name
+        f = f.f_back
+    return '?'
+
+
 def _copy_value(v):
     if isinstance(v, symnp.ndarray):
         return v.copy()
@@ -67,12 +79,14 @@ class FileSystem(object):
         self.files = {}
         self.dirs = set()
         self.journal = []
+        self.sites = []
         self.model = 'api'
 
     # -- primitive operations (each is one journal entry)
     def do(self, op, log=True):
         if log:
             self.journal.append(op)
+            self.sites.append(_site())
         kind = op[0]
         if kind == 'create_file':
             f = VFile()
@@ -141,12 +155,35 @@ class FileSystem(object):
         def tr(op):
             return tuple(mapping.get(id(x), x) if isinstance(x, VFile) else x
                          for x in op)
+        pending = {}          # 'close' model: r+ changes buffered until close
         for op in journal[:k]:
             if op[0] == 'create_file':
                 fs.do(op, log=False)
                 mapping[id(op[2])] = fs.files[op[1]]
-            else:
-                fs.do(tr(op), log=False)
+                continue
+            op = tr(op)
+            if model == 'close':
+                if op[0] == 'open_rw':
+                    pending[id(fs.files[op[1]])] = []
+                    fs.do(op, log=False)
+                    continue
+                if op[0] == 'close_w':
+                    f = fs.files.get(op[1], op[2])
+                    for q in pending.pop(id(f), []):
+                        fs.do(q, log=False)
+                    fs.do(op, log=False)
+                    continue
+                if len(op) > 1 and isinstance(op[1], VFile) and \
+                        id(op[1]) in pending:
+                    pending[id(op[1])].append(op)
+                    continue
+            fs.do(op, log=False)
+        if model == 'close':
+            # r+ handles that were never closed: their changes are lost, the
+            # file itself stays readable
+            for f in fs.files.values():
+                if id(f) in pending:
+                    f.open_for_write = max(0, f.open_for_write - 1)
         return fs
 
 
@@ -355,6 +392,7 @@ class File(Group):
                     "to open file: name = '%s')" % name)
             vf0 = VFile()
             FS.journal.append(('create_file', name, vf0))
+            FS.sites.append(_site())
             vf0.open_for_write = 1
             FS.files[name] = vf0
             vf = vf0
